@@ -40,4 +40,25 @@ theorem eq_of_diffCount_one {A B : Spec.SplitSet} (h : Spec.diffCount A B = 1) {
     simp only [List.mem_singleton] at ma mb
     rw [ma, mb]
 
+/-- a VARIANT of `applyH` that forgets to invert the central branch when the swapped neighbour
+    of n1 is its parent (not the code: used only to show that "the heap is oriented away from the
+    root", which is part of `apply t r = some t'`, is a real condition) -/
+def applyHNoInverse (h : Heap) (cross : Bool) : Option Heap :=
+  match h.ng1.idx .b with
+  | none => none
+  | some n12index =>
+  let n22node : Ref := if cross then .c else .d
+  match h.ng2.idx n22node with
+  | none => none
+  | some n22index => some { h with ng1 := h.ng1.set n12index n22node, ng2 := h.ng2.set n22index .b }
+
+def applyNoInverse (t : T) (r : NNI) : Option T :=
+  modAt r.path (fun S =>
+    match extract S r.path.isEmpty r false with
+    | none => none
+    | some h =>
+      match applyHNoInverse h r.cross with
+      | none => none
+      | some h' => if h'.oriented then some (rebuild h') else none) t
+
 end Gotree.C17
